@@ -344,6 +344,8 @@ class Pool:
 
 
 def run_jobs(jobs, slots=14, progress=True):
+    if not jobs:
+        return []
     pool = Pool(slots)
     results = [None] * len(jobs)
     order = sorted(range(len(jobs)), key=lambda i: -jobs[i].weight * 100000 - jobs[i].timeout)
@@ -362,7 +364,7 @@ def run_jobs(jobs, slots=14, progress=True):
                   f"{r.wall:.0f}s rss={r.peak_rss_mb}MB", flush=True)
         return r
 
-    with ThreadPoolExecutor(max_workers=max(4, slots)) as ex:
+    with ThreadPoolExecutor(max_workers=max(4, slots) + 4) as ex:
         list(ex.map(work, order))
     return results
 
